@@ -1526,9 +1526,16 @@ class CircuitTemplate(AbstractBaseTemplate):
 
                 # extend edge dict by edge variables
                 base_dict = edge_col[(source_new, target_new, template, delayed)]
+                # keep the per-edge attribute lists aligned with the index lists: an attribute that one of the merged
+                # edges does not define (e.g. `spread`) is None for that edge
+                n_old = len(base_dict['source_idx'])
                 for key, val in edge_dict.items():
-                    val = [val] * edge_len
-                    base_dict[key].extend(val)
+                    if key not in base_dict:
+                        base_dict[key] = [None] * n_old
+                    base_dict[key].extend([val] * edge_len)
+                for key in base_dict:
+                    if key not in edge_dict and key not in ('source_idx', 'target_idx'):
+                        base_dict[key].extend([None] * edge_len)
                 base_dict['source_idx'].extend(s_idx)
                 base_dict['target_idx'].extend(t_idx)
 
